@@ -68,6 +68,8 @@ func convertKindRule(r *Run, rule string) {
 				}
 				target := throughCell(args[0])
 				okKind := false
+				lg := newLedger(w, fn)
+				same := func(a, b ssa.Value) bool { return sameRef(a, b) || lg.key(a) == lg.key(b) }
 				for _, f := range dominatingFacts(b) {
 					bo, ok := f.cond.(*ssa.BinOp)
 					if !ok || (bo.Op != token.EQL && bo.Op != token.NEQ) || f.truth != (bo.Op == token.EQL) {
@@ -78,7 +80,7 @@ func convertKindRule(r *Run, rule string) {
 					if !okx || !oky {
 						continue
 					}
-					if (sameRef(x, recv) && sameRef(y, target)) || (sameRef(y, recv) && sameRef(x, target)) {
+					if (same(x, recv) && same(y, target)) || (same(y, recv) && same(x, target)) {
 						okKind = true
 					}
 				}
